@@ -512,7 +512,7 @@ pub async fn upgrade(
             &node_registry.environment_variables
         };
         let options = UpgradeOptions {
-            auto_restart: false,
+            auto_restart: node.auto_restart,
             env_variables: env_variables.clone(),
             force: use_force,
             start_service: !do_not_start,
